@@ -352,7 +352,7 @@ def histories(draw, any_top=False, explicit_clear=False, lifecycle=False):
     return {
         "ident": ident, "force": force, "cell": draw(st.sampled_from([[1, 2], [1, 2], [2, 4], [3, 5], [9, 18]])),
         "size": [cols, rows], "pool": pool, "layout": first, "steps": steps,
-        "foreign_first": draw(st.booleans()) if lifecycle else False,
+        "foreign_first": draw(st.booleans()) if lifecycle else False, "any_top": any_top,
     }
 
 
@@ -570,7 +570,11 @@ class Lab:
         k = op["op"]
         self.kinds.append(k)
         if k in ("set", "swap", "insert", "remove", "resize", "scroll", "cover", "move_cover", "uncover", "retarget"):
-            self.layout, done = RU.edit(self.layout, op)
+            new, done = RU.edit(self.layout, op)
+            if done and not self.case.get("any_top") and new["t"] in ("img", "solid"):
+                done = False  # clause without bare top-level widgets: keep the composite layout
+            else:
+                self.layout = new
             self.trace.append(k if done else k + "-")
         elif k == "noop":
             self.trace.append(k)
@@ -682,6 +686,8 @@ class Lab:
             return
         composite = isinstance(canvas, urwid.CompositeCanvas)
         if not composite:
+            if not self.case.get("any_top"):
+                raise HarnessError("non-composite top-level canvas generated in a composite-only clause")
             self.flags.add("noncomposite")
         vt = self.vt
         n_log = len(vt.sync_log)
